@@ -11,6 +11,8 @@ import (
 	"github.com/ClickHouse/ch-go/proto"
 	sdktrace "go.opentelemetry.io/otel/sdk/trace"
 	"go.opentelemetry.io/otel/sdk/trace/tracetest"
+	"go.uber.org/zap"
+	"go.uber.org/zap/zapcore"
 
 	"chgosim/choice"
 	"chgosim/gen"
@@ -33,8 +35,9 @@ type Conf struct {
 	ClientName  string
 	Settings    []ch.Setting
 	Otel        bool
-	FrameChunk  int // reference server: max payload bytes per compressed frame (0 = one frame per block)
-	LCKeyWidth  int // reference server: LowCardinality key type at least this wide
+	DebugLog    bool // a debug-level logger: the library's debug branches run
+	FrameChunk  int  // reference server: max payload bytes per compressed frame (0 = one frame per block)
+	LCKeyWidth  int  // reference server: LowCardinality key type at least this wide
 }
 
 func (c *Conf) Negotiated() int { return min(c.ClientRev, c.ServerRev) }
@@ -90,6 +93,7 @@ func DrawConf(c *choice.Stream) *Conf {
 		cf.Level = c.Pick("comp.level", 0, 1, 3, 9, 12, 13)
 	}
 	cf.ReadTimeout = []time.Duration{0, 10 * time.Millisecond, time.Second}[c.Weighted("readtimeout", 4, 1, 1)]
+	cf.DebugLog = c.Bool("debuglog", 1, 4)
 	cf.FrameChunk = c.Pick("srv.framechunk", 0, 0, 0, 3, 33, 1000)
 	cf.LCKeyWidth = c.Pick("srv.lckeys", 0, 0, 0, 1, 2, 3)
 	cf.Hello = refproto.ServerHello{Name: "ClickHouse", Major: 23, Minor: 8, Revision: cf.ServerRev, Timezone: "UTC", DisplayName: "sim", Patch: 3}
@@ -101,8 +105,17 @@ func DrawConf(c *choice.Stream) *Conf {
 // no-op provider, so that span recording code really runs.
 var otelSDK bool
 
+// debugLogger is enabled at debug level and discards what it is given.
+func debugLogger() *zap.Logger {
+	enc := zapcore.NewJSONEncoder(zap.NewProductionEncoderConfig())
+	return zap.New(zapcore.NewCore(enc, zapcore.AddSync(io.Discard), zapcore.DebugLevel))
+}
+
 func (cf *Conf) Options() ch.Options {
 	o := cf.options()
+	if cf.DebugLog {
+		o.Logger = debugLogger()
+	}
 	if (cf.Otel || otelOverride) && otelSDK {
 		o.TracerProvider = sdktrace.NewTracerProvider(sdktrace.WithSyncer(tracetest.NewInMemoryExporter()))
 	}
